@@ -1262,7 +1262,7 @@ pub fn run(tier: Tier, seed: u64, replay: Option<String>) -> i32 {
     }
     col.flush(&ctx);
     ctx.finish(
-        "E-PROD. (1) recording AymBackend: frames 0..=3 x spf {1,2,3,5} x 2 (rate, player frequency) pairs per spf x register logs (R13 over {00,01,0F,FF}^F x 2 patterns; 2 logs where partitions x logs exceeds the budget) x mono/stereo x ALL compositions of the requested output (F*spf+3 mono elements; 2*F*spf+3 stereo elements incl. length 1 and odd lengths; F=3,spf=5 stereo: all capacity compositions x 4 parity patterns) followed by three past-the-end calls; oracle = reference model of the statement (return counts, concatenated stream, register-write schedule). (2) real AymPrecise: every subset of the cut-point set around the frame boundaries, mono/stereo/stereo-odd, 2 register logs (R13=FF vs retrigger), bit-exact against a direct rendering. (3) Vtx::load on files from the harness writer (frame counts 0..=4 and up to two LH5 blocks, all 7 stereo codes, both chips, 2 LH5 header styles) and on the 4 shipped files. distinct = outcome digests (produced/short/zero-call profile, stream digests, decoded payload digests)",
+        "E-PROD. (1) recording AymBackend: frames 0..=3 x spf {1,2,3,5} x 2 (rate, player frequency) pairs per spf x register logs (R13 over {00,01,0F,FF}^F x 2 patterns; 2 logs where partitions x logs exceeds the budget) x mono/stereo x ALL compositions of the requested output (F*spf+3 mono elements; 2*F*spf+3 stereo elements incl. length 1 and odd lengths; F=3,spf=5 stereo: all capacity compositions x 4 parity patterns) followed by three past-the-end calls; long logs of 255..257 and 65535..65537 frames (thorough: also 70001 and 131073) at 1 and 2 samples per frame, mono/stereo, in whole-track, 4096-element and 7-element buffers; oracle = reference model of the statement (return counts, concatenated stream, register-write schedule). (2) real AymPrecise: every subset of the cut-point set around the frame boundaries, mono/stereo/stereo-odd, 2 register logs (R13=FF vs retrigger), bit-exact against a direct rendering. (3) Vtx::load on files from the harness writer (frame counts 0..=4 and up to two LH5 blocks, all 7 stereo codes, both chips, 2 LH5 header styles) and on the 4 shipped files. distinct = outcome digests (produced/short/zero-call profile, stream digests, decoded payload digests)",
         true,
         &[
             "Vtx values for playback are constructed directly (all fields public); Player is generic over the backend",
